@@ -140,7 +140,8 @@ def verify_uri(
     ):
         raise URIError("Contains control characters or surrounding white space")
     req_redirect_uri_obj = urlparse(req_redirect_uri)
-    if req_redirect_uri_obj.fragment:
+    if req_redirect_uri_obj.fragment or "#" in req_redirect_uri:
+        # also an empty fragment: response parameters appended after a '#' end up in the fragment
         raise URIError("Contains fragment")
 
     # basic URL validation
